@@ -122,6 +122,17 @@ def label_sites(db: DB, modname: str):
     if m is None:
         return []
     out = []
+
+    def subject(a: ast.AST, at: ast.AST) -> ast.AST:
+        """The value a local name stands for (label held in a local first)."""
+        if isinstance(a, ast.Name):
+            fi = db.func_of(at)
+            if fi is not None:
+                vals = [v for _, v in paths.defs_of(fi.node, a.id) if v is not None]
+                if len(vals) == 1:
+                    return vals[0]
+        return a
+
     for n in ast.walk(m.tree):
         if isinstance(n, ast.Call) and isinstance(n.func, ast.Attribute):
             if n.func.attr == "find_data" and n.args and isinstance(n.args[0], ast.Constant):
@@ -130,15 +141,22 @@ def label_sites(db: DB, modname: str):
                     isinstance(n.args[1], ast.Constant):
                 out.append((n, n.args[1].value, n.func.attr))
         if isinstance(n, ast.Compare) and len(n.ops) == 1 and isinstance(n.ops[0], (ast.In, ast.NotIn)) and \
-                isinstance(n.left, ast.Attribute) and n.left.attr == "data" and \
                 isinstance(n.comparators[0], (ast.Set, ast.Tuple, ast.List)):
+            left = subject(n.left, n)
+            kind = None
+            if isinstance(left, ast.Attribute) and left.attr == "data":
+                kind = "data-compare"
+            elif isinstance(left, ast.Call) and isinstance(left.func, ast.Attribute) and \
+                    left.func.attr == "get_style":
+                kind = "style-compare"
             for x in n.comparators[0].elts:
-                if isinstance(x, ast.Constant) and isinstance(x.value, str):
-                    out.append((n, x.value, "data-compare"))
+                if kind and isinstance(x, ast.Constant) and isinstance(x.value, str):
+                    out.append((n, x.value, kind))
         if isinstance(n, ast.Compare) and len(n.ops) == 1 and len(n.comparators) == 1:
             l, r = n.left, n.comparators[0]
             for a, b in ((l, r), (r, l)):
                 if isinstance(b, ast.Constant) and isinstance(b.value, str):
+                    a = subject(a, n)
                     if isinstance(a, ast.Attribute) and a.attr == "data":
                         out.append((n, b.value, "data-compare"))
                     if isinstance(a, ast.Call) and isinstance(a.func, ast.Attribute) and \
@@ -439,7 +457,24 @@ def _else_absorbs(db: DB, gid: str, covered: Set[str]) -> Optional[str]:
         if gid not in fam or modname not in db.modules:
             continue
         for n in ast.walk(db.modules[modname].tree):
-            if not isinstance(n, ast.If) or not n.orelse:
+            if not isinstance(n, ast.If):
+                continue
+            # "if X.data != <lit>: <handle the rest>" / "if X.data not in {...}:"
+            t0 = n.test
+            if isinstance(t0, ast.Compare) and len(t0.ops) == 1 and \
+                    isinstance(t0.ops[0], (ast.NotEq, ast.NotIn)):
+                l0, r0 = t0.left, t0.comparators[0]
+                neg: Set[str] = set()
+                if isinstance(t0.ops[0], ast.NotEq):
+                    for a, b in ((l0, r0), (r0, l0)):
+                        if isinstance(a, ast.Attribute) and a.attr == "data" and isinstance(b, ast.Constant):
+                            neg.add(b.value)
+                elif isinstance(l0, ast.Attribute) and l0.attr == "data" and \
+                        isinstance(r0, (ast.Set, ast.Tuple, ast.List)):
+                    neg = {x.value for x in r0.elts if isinstance(x, ast.Constant)}
+                if neg and neg == covered and not any(isinstance(x, ast.Raise) for x in n.body):
+                    return db.loc(n)
+            if not n.orelse:
                 continue
             lits = set()
             cur: ast.AST = n
@@ -465,59 +500,145 @@ def _else_absorbs(db: DB, gid: str, covered: Set[str]) -> Optional[str]:
     return None
 
 
+class _Subst(ast.NodeTransformer):
+    def __init__(self, env: Dict[str, ast.AST]):
+        self.env = env
+
+    def visit_Name(self, node: ast.Name):
+        if isinstance(node.ctx, ast.Load) and node.id in self.env:
+            return paths.clone(self.env[node.id])
+        return node
+
+
+def _subst(e: ast.AST, env: Dict[str, ast.AST]) -> ast.AST:
+    return _Subst(env).visit(paths.clone(e))
+
+
+def _sign_paths(stmts: List[ast.stmt], env: Dict[str, ast.AST], conds: List[Tuple[str, bool]],
+                stores: List[Tuple[ast.stmt, str, ast.AST]], out: List, budget: List[int]) -> bool:
+    """Enumerate the paths of one loop iteration; every finished path is
+    appended to ``out`` as (conds, stores, odd statement or None).  Returns
+    False when the path ended (raise/continue/...)."""
+    for k, st in enumerate(stmts):
+        budget[0] -= 1
+        if budget[0] < 0:
+            out.append((conds, stores, st))
+            return False
+        if isinstance(st, (ast.Assert, ast.Pass)) or \
+                (isinstance(st, ast.Expr) and isinstance(st.value, ast.Constant)):
+            continue
+        if isinstance(st, ast.AnnAssign) and st.value is None:
+            continue
+        if isinstance(st, (ast.Assign, ast.AnnAssign)):
+            tgt = st.targets[0] if isinstance(st, ast.Assign) else st.target
+            if isinstance(st, ast.Assign) and len(st.targets) != 1:
+                out.append((conds, stores, st))
+                return False
+            val = _subst(st.value, env)
+            if isinstance(tgt, ast.Name):
+                env = dict(env)
+                env[tgt.id] = val
+                continue
+            if isinstance(tgt, ast.Subscript):
+                stores = stores + [(st, norm(_subst(tgt, env)), val)]
+                continue
+            out.append((conds, stores, st))
+            return False
+        if isinstance(st, ast.If):
+            test = _subst(st.test, env)
+            for branch, pol in ((st.body, True), (st.orelse, False)):
+                cs = conds + [(norm(a), p) for a, p in paths.conjuncts(test, pol)]
+                # a branch continues with the statements after the if
+                _sign_paths(list(branch) + list(stmts[k + 1:]), env, cs, stores, out, budget)
+            return False
+        if isinstance(st, ast.Raise):
+            return False
+        if isinstance(st, (ast.Continue, ast.Break)):
+            out.append((conds, stores, None))
+            return False
+        # anything else (nested loops, calls with effects, returns) is not modelled
+        out.append((conds, stores, st))
+        return False
+    out.append((conds, stores, None))
+    return True
+
+
+def _neg_parity_expr(e: ast.AST, base: str) -> Optional[int]:
+    """Parity of negations of int(<base expression>) in e (None: another form)."""
+    if isinstance(e, ast.Call) and isinstance(e.func, ast.Name) and e.func.id == "int" and len(e.args) == 1:
+        return 0 if norm(e.args[0]) == base else None
+    if isinstance(e, ast.UnaryOp) and isinstance(e.op, ast.USub):
+        p = _neg_parity_expr(e.operand, base)
+        return None if p is None else 1 - p
+    if isinstance(e, ast.BinOp) and isinstance(e.op, ast.Mult):
+        for a, b in ((e.left, e.right), (e.right, e.left)):
+            c = _const_int(a)
+            if c in (1, -1):
+                p = _neg_parity_expr(b, base)
+                if p is not None:
+                    return p if c == 1 else 1 - p
+        return None
+    if isinstance(e, ast.BinOp) and isinstance(e.op, ast.Sub) and _const_int(e.left) == 0:
+        p = _neg_parity_expr(e.right, base)
+        return None if p is None else 1 - p
+    return None
+
+
 def _check_sign(db: DB, rep: Report, f) -> None:
+    """L5 on every path of one iteration of the coefficient loop: with X the
+    'num' subtree (first child of the itimes tree), X.data == 'pos' keeps
+    X.children[0]; otherwise the child becomes Token('NUMBER',
+    str(<odd number of negations of int(X.children[0])>))."""
+    import re
     fn = f.node
-    # the dispatch on num.data
-    found_neg = found_pos = False
-    for n in walk_no_nested(fn):
-        if not isinstance(n, ast.If):
+    loops = [n for n in walk_no_nested(fn) if isinstance(n, ast.For) and isinstance(n.target, ast.Name)
+             and any(isinstance(c, ast.Constant) and c.value == "itimes" for c in ast.walk(n.iter))]
+    if len(loops) != 1:
+        raise AnalysisError("EquationParser.parse: the loop over find_data('itimes') was not found")
+    lp = loops[0]
+    child = "%s.children[0]" % lp.target.id         # X
+    out: List = []
+    _sign_paths(list(lp.body), {}, [], [], out, [400])
+    for conds, stores, odd in out:
+        sign: Optional[str] = None
+        for a, pol in conds:
+            m = re.fullmatch(re.escape(child) + r"\.data (==|!=) '(pos|neg)'", a)
+            if m:
+                is_lit = (m.group(1) == "==") == pol
+                sign = m.group(2) if is_lit else ("neg" if m.group(2) == "pos" else "pos")
+        where = db.loc(stores[-1][0]) if stores else db.loc(lp)
+        desc = " and ".join(("" if p else "not ") + a for a, p in conds) or "always"
+        mine = [x for x in stores if x[1] == child]
+        if odd is not None or sign is None or len(mine) != 1:
+            rep.check("L5", False, where, f.short, "path:" + desc[:60], "",
+                      "the coefficient rewrite on the path [%s] has a form this rule does not model (%s)" %
+                      (desc[:80], "statement " + norm(odd)[:60] if odd is not None else
+                       "sign test not recognised" if sign is None else
+                       "%d writes of %s" % (len(mine), child)), decided=False)
             continue
-        t = n.test
-        if not (isinstance(t, ast.Compare) and isinstance(t.left, ast.Attribute) and
-                t.left.attr == "data" and len(t.ops) == 1 and
-                isinstance(t.comparators[0], ast.Constant)):
-            continue
-        lit = t.comparators[0].value
-        eq = isinstance(t.ops[0], ast.Eq)
-        if lit not in ("pos", "neg"):
-            continue
-        num_name = t.left.value.id if isinstance(t.left.value, ast.Name) else None
-        pos_br = n.body if (lit == "pos") == eq else n.orelse
-        neg_br = n.orelse if (lit == "pos") == eq else n.body
-        # positive: child assigned the token itself
-        for s in pos_br:
-            if isinstance(s, ast.Assign) and isinstance(s.targets[0], ast.Subscript):
-                v = s.value
-                ok = isinstance(v, ast.Subscript) and isinstance(v.value, ast.Attribute) and \
-                    v.value.attr == "children" and isinstance(v.value.value, ast.Name) and \
-                    v.value.value.id == num_name and _const_int(v.slice) == 0
-                found_pos = True
-                rep.check("L5", ok, db.loc(s), f.short, "pos:" + norm(s.value),
-                          "positive coefficient kept: " + norm(s),
-                          "a positive coefficient is not written back as the NUMBER token itself")
-        # negative: Token("NUMBER", str(<odd negations of int(tok)>))
-        base: Set[str] = set()
-        for s in neg_br:
-            if isinstance(s, ast.Assign) and isinstance(s.targets[0], ast.Name):
-                v = s.value
-                if isinstance(v, ast.Subscript) and isinstance(v.value, ast.Attribute) and \
-                        v.value.attr == "children" and _const_int(v.slice) == 0 and \
-                        isinstance(v.value.value, ast.Name) and v.value.value.id == num_name:
-                    base.add(s.targets[0].id)
-        for s in neg_br:
-            if isinstance(s, ast.Assign) and isinstance(s.targets[0], ast.Subscript):
-                v = s.value
-                parity = None
-                if isinstance(v, ast.Call) and norm(v.func) == "Token" and len(v.args) == 2:
-                    inner = v.args[1]
-                    if isinstance(inner, ast.Call) and isinstance(inner.func, ast.Name) and \
-                            inner.func.id == "str" and inner.args:
-                        parity = _neg_parity(inner.args[0], base)
-                found_neg = True
-                rep.check("L5", parity == 1, db.loc(s), f.short, "neg:" + norm(s.value),
-                          "negative coefficient: %s (negation parity %s)" % (norm(s.value), parity),
-                          "the token written back for a '-N' coefficient is not an odd number of "
-                          "negations of int(N): the sign (or the value) of the coefficient changes")
+        st, _, val = mine[0]
+        tok = child + ".children[0]"
+        if sign == "pos":
+            rep.check("L5", norm(val) == tok, db.loc(st), f.short, "pos:" + norm(val)[:60],
+                      "positive coefficient kept: %s = %s" % (child, norm(val)[:50]),
+                      "a positive coefficient is not written back as the NUMBER token itself (%s)" % norm(val)[:60])
+        else:
+            parity = None
+            recognised = False
+            if isinstance(val, ast.Call) and norm(val.func) == "Token" and len(val.args) == 2 and \
+                    isinstance(val.args[0], ast.Constant) and val.args[0].value == "NUMBER":
+                inner = val.args[1]
+                if isinstance(inner, ast.Call) and isinstance(inner.func, ast.Name) and \
+                        inner.func.id == "str" and len(inner.args) == 1:
+                    parity = _neg_parity_expr(inner.args[0], tok)
+                    recognised = parity is not None
+            if norm(val) == tok:
+                recognised, parity = True, 0
+            rep.check("L5", parity == 1, db.loc(st), f.short, "neg:" + norm(val)[:60],
+                      "negative coefficient: %s (negation parity %s)" % (norm(val)[:60], parity),
+                      "the token written back for a '-N' coefficient is not an odd number of "
+                      "negations of int(N): the sign (or the value) of the coefficient changes (%s)" %
+                      norm(val)[:80], decided=recognised)
     # L5b: whatever the form, a value written back into the tree depends only on
     # locals set within the same term's iteration
     for lp in [n for n in walk_no_nested(fn) if isinstance(n, ast.For)]:
